@@ -12,7 +12,7 @@ RULE = ("Arm A (monitor inside real search): C01's Hypothesis scripts x engines 
         "trace records every literal pushed to the theory solvers (TS+), every backtrack (TS-) and every check (TC). The "
         "Python side replays the literal stack. Oracle: whenever a solver reports an inconsistency (assertLit fails or a check "
         "returns UNSAT) the current literal set must be theory-unsat (z3, cvc5 not contradicting); whenever a complete check "
-        "returns SAT with no pending split clause in a logic without integers the current set must be certified sat (Boolean terms that are arguments of uninterpreted functions are opaque constants there, tied to their own asserted literal only). Up to "
+        "returns SAT with no pending split clause in a logic without integers the current set must be certified sat (Boolean arguments of uninterpreted functions are opaque there: values of a fresh sort, tied to true/false only through their own asserted literal). Up to "
         "40 verdicts per run. Non-trivial = verdict issued after >= 1 backtrack on a literal set different from every earlier "
         "examined set of the run; distinct by literal set.")
 RULE += (" Arm B (harness/h_theory.cc, rapidcheck, ASan/UBSan library): LASolver (LRA), Egraph (EUF), IDLSolver and RDLSolver "
@@ -88,18 +88,24 @@ def generate(rnd, tier):
 
 def abstract_boolargs(decls, lits):
     """A theory solver sees a Boolean term that is an argument of an uninterpreted function only through the literal the
-    SAT engine asserts for it; the Boolean structure of such a term (and/or/...) is the SAT engine's business. Replace
-    every non-constant Bool argument by a fresh Boolean constant, tied to the term only where the term itself (or its
-    negation) is among the asserted literals. Returns (literals, extra declarations)."""
+    SAT engine asserts for it; neither the Boolean structure of such a term nor the fact that it can only be true or
+    false is the theory solver's business (the SAT engine assigns every such term before the final check; the lookahead
+    engines also ask on partial assignments). Bool parameters of uninterpreted functions become parameters of a fresh
+    sort with two distinct constants for true and false; every other Bool argument becomes a fresh constant of that
+    sort, tied to true/false only where the argument itself (or its negation) is among the asserted literals.
+    Returns (literals, declarations)."""
     from .. import sexpr
     bpos = {}
+    new_decls = []
     for d in decls:
-        if d.startswith("(declare-fun"):
-            rk = V.decl_rank(d)
-            if rk and "Bool" in rk[1]:
-                bpos[rk[0]] = [i for i, x in enumerate(rk[1]) if x == "Bool"]
+        rk = V.decl_rank(d) if d.startswith("(declare-fun") else None
+        if rk and "Bool" in rk[1]:
+            bpos[rk[0]] = [i for i, x in enumerate(rk[1]) if x == "Bool"]
+            new_decls.append("(declare-fun %s (%s) %s)" % (rk[0], " ".join("|.BA|" if x == "Bool" else x for x in rk[1]), rk[2]))
+        else:
+            new_decls.append(d)
     if not bpos:
-        return lits, []
+        return lits, decls
     names = {}
 
     def walk(e):
@@ -108,21 +114,29 @@ def abstract_boolargs(decls, lits):
         out = [walk(x) for x in e]
         if isinstance(e[0], str) and e[0] in bpos:
             for i in bpos[e[0]]:
-                if i + 1 < len(e) and e[i + 1] not in ("true", "false"):
-                    t = sexpr.to_str(e[i + 1])
-                    out[i + 1] = names.setdefault(t, "|.babs%d|" % len(names))
+                if i + 1 < len(e):
+                    if e[i + 1] == "true":
+                        out[i + 1] = "|.bt|"
+                    elif e[i + 1] == "false":
+                        out[i + 1] = "|.bf|"
+                    else:
+                        t = sexpr.to_str(e[i + 1])
+                        out[i + 1] = names.setdefault(t, "|.ba%d|" % len(names))
         return out
     try:
         new = [sexpr.to_str(walk(sexpr.parse_one(l))) for l in lits]
     except Exception:
-        return lits, []
+        return lits, decls
     cur = set(lits)
+    new.append("(distinct |.bt| |.bf|)")
     for t, b in names.items():
         if t in cur:
-            new.append(b)
+            new.append("(= %s |.bt|)" % b)
         if "(not %s)" % t in cur:
-            new.append("(not %s)" % b)
-    return new, ["(declare-fun %s () Bool)" % b for b in names.values()]
+            new.append("(= %s |.bf|)" % b)
+    pre = ["(declare-sort |.BA| 0)", "(declare-fun |.bt| () |.BA|)", "(declare-fun |.bf| () |.BA|)"]
+    pre += ["(declare-fun %s () |.BA|)" % b for b in names.values()]
+    return new, pre + new_decls
 
 
 def check(case, ctx):
@@ -157,10 +171,9 @@ def check(case, ctx):
         decls0 = decls
         if expect == "sat":
             # a reported inconsistency is judged on the literals as they are; a reported consistency on what the solver can see
-            cur, extra = abstract_boolargs(decls, cur)
-            if extra:
+            cur, decls0 = abstract_boolargs(decls, cur)
+            if decls0 is not decls:
                 classes.append("bool-arguments-abstracted")
-            decls0 = decls + extra
         if expect == "unsat":
             zr, zd = ref.z3_check(decls, cur, tms)
             if zr == "sat":
